@@ -1,6 +1,6 @@
 """Signature-layer rule instances shared by C02 / C11 / C15 (DESIGN §5 S02-*, S15-4, S15-5)."""
 import re
-from rules.common import rdom, call_blocks, ok_exit_blocks, site, is_pure_forwarder
+from rules.common import rdom, call_blocks, ok_exit_blocks, site, is_pure_forwarder, accept_edge
 from core import guard_switches, must_pass, fmt_path, has_origin
 
 SIG = 'packet::signature::types::Signature::'
@@ -142,38 +142,6 @@ def accepted_types(b, sinks):
             # map names to values through the ADT table
             return res
     return res
-
-
-def accept_edge(b, sw, tgt, can):
-    """Does taking edge sw->tgt keep the sink reachable *through a true bool-phi*?  For `matches!` the
-    switch arms assign a bool and rejoin; follow to the bool switch."""
-    # direct: tgt cannot reach sink -> reject
-    if tgt not in can:
-        return False
-    # bool-phi: tgt block assigns const bool to a local then joins a switch on it
-    blk = b.blocks[tgt]
-    for s in blk['s']:
-        r = s['r']
-        if r['k'] == 'use' and 'k' in r['o'][0] and r['o'][0]['k'].get('ty') == 'bool' and not s['d']['pr']:
-            val = r['o'][0]['k'].get('v')
-            loc = s['d']['l']
-            # find the switch on loc downstream
-            j = tgt
-            for _ in range(4):
-                t = b.blocks[j]['t']
-                if t['k'] == 'goto':
-                    j = t['t']
-                    continue
-                if t['k'] == 'switch' and t['o'].get('l') == loc:
-                    nxt = None
-                    for v, bb in t['targets']:
-                        if v == val:
-                            nxt = bb
-                    if nxt is None:
-                        nxt = t['else']
-                    return nxt in can
-                break
-    return True
 
 
 def s02_4_identity(ctx, P):
